@@ -157,6 +157,31 @@ func casesC02(g *Gen) []*Case {
 		c.Oracle = expectOut("T")
 		cs = append(cs, c)
 	}
+	// white space between a directive keyword and its parenthesis does not change the directive
+	for _, sp := range []string{" ", "  ", "\t", "\n", " \n "} {
+		progs := map[string]string{
+			"@if" + sp + "(false)a@elseif" + sp + "(true)b@else c@end":                                  "b",
+			"@if" + sp + "(false)a@elseif" + sp + "(false)b@else" + " c@end":                             " c",
+			"@each" + sp + "(v in [1, 2, 3]){{ v }}@breakIf" + sp + "(v == 2)@end":                         "12",
+			"@each" + sp + "(v in [1, 2, 3])@continueIf" + sp + "(v == 2){{ v }}@end":                      "13",
+			"@for" + sp + "(i = 0; i < 3; i++){{ i }}@end":                                               "012",
+			"@if(false)a@elseif" + sp + "(1 / 0)b@end":                                                   "",
+		}
+		for src, want := range progs {
+			c := evalCase("directive_spacing", src, nil)
+			if src == "@if(false)a@elseif"+sp+"(1 / 0)b@end" {
+				c.Oracle = func(c *Case, impl string) string {
+					if strings.HasPrefix(impl, "ERR ") {
+						return ""
+					}
+					return "the @elseif condition fails, the render must fail: " + describe(impl)
+				}
+			} else {
+				c.Oracle = expectOut(want)
+			}
+			cs = append(cs, c)
+		}
+	}
 	// text that directly follows @else / @end is unaffected, whatever letter it starts with
 	for _, t := range []string{"i", "ix", "invalid", "I", "If", "in", "e", "end", "(x)", "f", "if ", "1"} {
 		if strings.HasPrefix(t, "if") {
@@ -342,6 +367,31 @@ func (g *Gen) randLoop(depth int) *MS {
 func casesC03(g *Gen) []*Case {
 	var cs []*Case
 	add := func(fam string, prog []*MS) { cs = append(cs, miniCase(fam, prog, ctrlData)) }
+	// the @for condition is evaluated anew before every pass: the body may change what it reads
+	for src, want := range map[string]string{
+		"{{ n = 5 }}@for(i = 0; i < n; i++){{ i }}{{ n = n - 1 }}@end|{{ n }}":                                  "012|5",
+		"{{ n = 1 }}@for(i = 0; i < n; i++){{ i }}{{ n = n + (n < 4 ? 1 : 0) }}@end":                            "0123",
+		"{{ todo = [7, 8, 9] }}@for(i = 0; i < todo.len(); i++)[{{ todo[0] }}]{{ todo = todo.slice(1) }}@end":     "[7][8]",
+		"{{ stop = false }}@for(i = 0; !stop; i++){{ i }}{{ stop = i == 2 }}@end":                                "012",
+		"{{ lim = 3 }}@for(i = 0; i < lim; i++)@for(j = 0; j < lim; j++){{ j }}@end;{{ lim = lim - 1 }}@end":      "012;01;",
+		"@for(i = 0; i < xs.len(); i++){{ xs[i] }}@end":                                                        "123",
+	} {
+		c := evalCase("for_condition_reevaluated", src, gvMap("xs", gvList(gvInt(1), gvInt(2), gvInt(3))))
+		c.Oracle = expectOut(want)
+		cs = append(cs, c)
+	}
+	// a control directive in the @else body of an inner loop acts on the loop around it, and what follows
+	// the inner loop in the outer body is skipped / kept accordingly
+	for src, want := range map[string]string{
+		"@each(a in [1, 2, 3]){{ a }}@each(q in [])x@else@if(a == 2)@continue@end@end!@end":   "1!23!",
+		"@each(a in [1, 2, 3]){{ a }}@each(q in [])x@else@if(a == 2)@break@end@end!@end":      "1!2",
+		"@each(a in [1, 2, 3]){{ a }}@for(j = 0; j < 0; j++)x@else@continueIf(a == 1)@end!@end": "12!3!",
+		"@each(a in [1, 2]){{ a }}@each(q in [])x@else@each(r in [])y@else@break@end@end!@end":  "1",
+	} {
+		c := evalCase("control_in_inner_else", src, nil)
+		c.Oracle = expectOut(want)
+		cs = append(cs, c)
+	}
 	// array lengths 0..6 of each element kind, loop metadata
 	for n := 0; n <= 6; n++ {
 		for kind := 0; kind < 3; kind++ {
@@ -513,6 +563,52 @@ func casesC04(g *Gen) []*Case {
 				cs = append(cs, miniCase("assign_after_nested", prog, nil))
 			}
 		}
+	}
+	// data under names that begin with an underscore is data like any other
+	for _, key := range []string{"_id", "_", "__v", "_x9", "a_b"} {
+		d := gvMap(key, gvInt(7))
+		c := evalCase("underscore_names", "{{ "+key+" }}|@if(true)@each(q in [1]){{ "+key+" + q }}@end@end", d)
+		c.Oracle = expectOut("7|8")
+		cs = append(cs, c)
+		c2 := evalCase("underscore_names", "{{ "+key+" = \"seven\" }}", d)
+		c2.Oracle = func(c *Case, impl string) string {
+			if strings.HasPrefix(impl, "ERR ") {
+				return ""
+			}
+			return "re-typing a data variable must fail: " + describe(impl)
+		}
+		cs = append(cs, c2)
+		c3 := evalCase("underscore_names", "@each("+key+" in [\"a\"])x@end", d)
+		c3.Oracle = c2.Oracle
+		cs = append(cs, c3)
+	}
+	// blocks that arrive through the loader (insert blocks, slot bodies, component files) are scoped like
+	// the construct they are rendered in
+	{
+		t := newTree()
+		t.files["tpl/layouts/l.tw"] = `{{ y = 1 }}@if(true)@reserve("c")[{{ x }}]@end<{{ y }}>@each(q in [1])@reserve("d")@end`
+		t.files["tpl/p.tw"] = `@use("~l")@insert("c"){{ x = 5 }}{{ y = 2 }}@end@insert("d"){{ z = 3 }}@end`
+		t.files["tpl/leak.tw"] = `@use("~l2")@insert("c"){{ x = 5 }}@end`
+		t.files["tpl/layouts/l2.tw"] = `@if(true)@reserve("c")@end{{ x }}`
+		t.files["tpl/components/k.tw"] = `{{ inner = 1 }}@slot`
+		t.files["tpl/comp.tw"] = `@component("~k")@slot{{ s = 2 }}@end@end[{{ s }}]`
+		t.files["tpl/comp2.tw"] = `@component("~k")[{{ inner }}]`
+		ops := []string{opNew("tpl", ".tw", "", false), opStr("p", nil), opStr("leak", nil), opStr("comp", nil), opStr("comp2", nil)}
+		c := histCase("loader_blocks_are_scoped", t, ops, "NewTemplate; String(p); String(leak); String(comp); String(comp2)")
+		mustFail := func(name string) func(string) string {
+			return func(r string) string {
+				if strings.HasPrefix(r, "ERR ") && strings.Contains(r, hx(name)) {
+					return ""
+				}
+				f := strings.Fields(r)
+				if len(f) >= 4 && f[0] == "ERR" && strings.Contains(unhx(f[3]), name) {
+					return ""
+				}
+				return "the name '" + name + "' was bound inside a nested construct and must not be visible after it: " + describe(r)
+			}
+		}
+		c.Oracle = expectResults(map[int]func(string) string{0: wantNewOK, 1: wantOK("[5]<1>"), 2: mustFail("x"), 3: mustFail("s"), 4: mustFail("inner")})
+		cs = append(cs, c)
 	}
 	// loop is reserved
 	cs = append(cs, miniCase("loop_reserved", []*MS{{K: "assign", N: "loop", X: lit(mi(1))}}, nil))
